@@ -211,6 +211,11 @@ func checkC07(p *load.Program, r *kit.Report) {
 		for ev := range isEvent {
 			reach := kit.Reach(ph, kit.After(ev), opts(nil, nil))
 			for ev2 := range isEvent {
+				// the loads of the channel list inside one walk over the channels are one
+				// announcement
+				if cyc := cycleOf(ev.Block()); len(cyc) > 0 && cyc[ev2.Block()] {
+					continue
+				}
 				if reach.Has(ev2) {
 					bad = "two announcements on one path: " + posOf(p, ev) + " then " + posOf(p, ev2)
 				}
